@@ -242,6 +242,9 @@ type EvPlan struct {
 	ThenAnswer bool `json:"thenAnswer,omitempty"` // (quiescent delivery) the next client action is an answer, issued at once
 	First bool   `json:"first,omitempty"` // (quiescent delivery) deliver before any pending request is answered
 	Last  bool   `json:"last,omitempty"` // (quiescent delivery) deliver only when no task request is pending
+	AfterAnswer string `json:"afterAnswer,omitempty"` // (own) wait until the driver's answer to this activity has returned, then DelayMs of simulated time
+	DelayMs   int    `json:"delayMs,omitempty"`
+	AfterTask string `json:"afterTask,omitempty"` // (own, prompt) wait until the request of this activity was observed
 	WhenListening int `json:"whenListening,omitempty"` // (own) wait until this many ActiveListeningTraces were observed
 	Prompt bool `json:"prompt,omitempty"` // (own) deliver the moment the After/WhenListening condition holds (signalled by the observer) instead of at the next quiescent moment: the event races with whatever the engine is doing right then
 	Burst  int  `json:"burst,omitempty"`  // (quiescent delivery) deliver this event and the next Burst quiescent ones back to back, without waiting for the engine in between
@@ -352,9 +355,10 @@ func (c *ProcCase) Main() {
 	// gates of the prompt events: closed by the observer the moment their condition holds
 	gates := make([]chan struct{}, len(c.Events))
 	gateOpen := make([]bool, len(c.Events))
+	taskSeen := map[string]bool{}
 	openGates := func(nt, nl int) {
 		for i, ep := range c.Events {
-			if ep.Own && ep.Prompt && !gateOpen[i] && nt >= ep.After && nl >= ep.WhenListening {
+			if ep.Own && ep.Prompt && !gateOpen[i] && nt >= ep.After && nl >= ep.WhenListening && (ep.AfterTask == "" || taskSeen[ep.AfterTask]) {
 				gateOpen[i] = true
 				close(gates[i])
 			}
@@ -364,6 +368,14 @@ func (c *ProcCase) Main() {
 		gates[i] = make(chan struct{})
 	}
 	openGates(0, 0)
+	// gates of the events that wait for an answer of the driver: closed by the answerer (and by nobody else)
+	ansGates := map[string]chan struct{}{}
+	for _, ep := range c.Events {
+		if ep.Own && ep.AfterAnswer != "" && ansGates[ep.AfterAnswer] == nil {
+			ansGates[ep.AfterAnswer] = make(chan struct{})
+		}
+	}
+	ansGateClosed := map[string]bool{}
 
 	// observer
 	obsDone := make(chan struct{})
@@ -379,6 +391,9 @@ func (c *ProcCase) Main() {
 			L.Add("t:"+k, a, b, n)
 			if k == "listening" {
 				nlistening.Add(1)
+			}
+			if k == "task" {
+				taskSeen[a] = true
 			}
 			openGates(n, int(nlistening.Get()))
 			if c.Stress != nil {
@@ -882,6 +897,10 @@ func (c *ProcCase) Main() {
 				}
 			}
 			L.Add("ans-ret", r.act, "", n)
+			if gch := ansGates[r.act]; gch != nil && !ansGateClosed[r.act] {
+				ansGateClosed[r.act] = true
+				close(gch)
+			}
 		}
 	}()
 
@@ -901,7 +920,21 @@ func (c *ProcCase) Main() {
 					return
 				}
 			}
-			for polls := 0; !ep.Prompt && (int(ntraces.Get()) < ep.After || int(nlistening.Get()) < ep.WhenListening) && polls < 400; polls++ {
+			if ep.AfterAnswer != "" {
+				select {
+				case <-ansGates[ep.AfterAnswer]:
+				case <-stop:
+					return
+				}
+				if ep.DelayMs > 0 {
+					select {
+					case <-time.After(time.Duration(ep.DelayMs) * time.Millisecond):
+					case <-stop:
+						return
+					}
+				}
+			}
+			for polls := 0; !ep.Prompt && ep.AfterAnswer == "" && (int(ntraces.Get()) < ep.After || int(nlistening.Get()) < ep.WhenListening) && polls < 400; polls++ {
 				select {
 				case <-time.After(time.Millisecond):
 				case <-stop:
